@@ -444,6 +444,186 @@ Proof.
   intros H. unfold emit, perform. rewrite !(lookup_vals_with val _ _ _ _ H). reflexivity.
 Qed.
 
+(** * Pointwise view: the message of the k-th tick *)
+
+Lemma nth_repeat_none k n : nth k (repeat ONone n) ONone = ONone.
+Proof. revert k. induction n; intros [|k]; simpl; auto. Qed.
+
+Lemma nth_pad : forall n k L, (k < n)%nat -> nth k (pad n L) ONone = nth k L ONone.
+Proof.
+  induction n as [|n IH]; intros k L Hk; [lia|].
+  destruct L as [|x L].
+  - unfold pad. rewrite firstn_nil. cbn [app length]. destruct k; [destruct n; reflexivity|]. rewrite nth_repeat_none. reflexivity.
+  - unfold pad. simpl. destruct k as [|k]; [reflexivity|]. apply (IH k L). lia.
+Qed.
+
+(* what the track sends on its k-th tick (k = 0: the tick on which it starts) *)
+Definition msg (events : list event) (k : nat) : outcome := nth k (spec (eff 0 events)) ONone.
+
+Theorem run_msg events n k : all_num events -> (k < n)%nat ->
+  nth k (runM n (init events)) ONone = msg events k.
+Proof. intros Hn Hk. rewrite (run_spec events Hn n). apply nth_pad. exact Hk. Qed.
+
+Definition chain_ok_list (l : list event) : bool := match l with [] => true | e :: r => chain_ok e r end.
+Definition first_list (l : list event) : list outcome := match l with [] => [] | e :: r => first_part true e r end.
+
+Lemma spec_ok l : chain_ok_list l = true -> spec l = first_list l ++ segs l.
+Proof. destruct l as [|e r]; [reflexivity|]. apply spec_open_ok. Qed.
+
+Lemma first_list_length l : length (first_list l) = if (ticks_of (removelast l) =? 0)%nat then 0%nat else 1%nat.
+Proof. destruct l as [|e r]; [reflexivity|]. apply first_part_length. Qed.
+
+Lemma seg_outs_nth cur nxt j : (j < Z.to_nat (dsteps cur))%nat ->
+  nth j (seg_outs cur nxt) ONone = emit (fun a b => step_value cospi mode a b (dsteps cur) j) cur nxt.
+Proof.
+  intros Hj. unfold seg_outs.
+  rewrite (nth_indep _ ONone (emit (fun a b => step_value cospi mode a b (dsteps cur) 0) cur nxt))
+    by (rewrite map_length, seq_length; exact Hj).
+  rewrite (map_nth (fun j => emit (fun a b => step_value cospi mode a b (dsteps cur) j) cur nxt)).
+  rewrite seq_nth by exact Hj. reflexivity.
+Qed.
+
+Lemma removelast_mid (pre : list event) cur nxt post :
+  removelast (pre ++ cur :: nxt :: post) = pre ++ cur :: removelast (nxt :: post).
+Proof.
+  rewrite removelast_app by discriminate. reflexivity.
+Qed.
+
+(* the message j steps (0-based) into the segment cur -> nxt *)
+Lemma msg_segment l pre cur nxt post j :
+  l = pre ++ cur :: nxt :: post -> chain_ok_list l = true -> (j < Z.to_nat (dsteps cur))%nat ->
+  nth (1 + ticks_of pre + j) (spec l) ONone = emit (fun a b => step_value cospi mode a b (dsteps cur) j) cur nxt.
+Proof.
+  intros -> Hok Hj. rewrite (spec_ok _ Hok), segs_split.
+  assert (HF : length (first_list (pre ++ cur :: nxt :: post)) = 1%nat).
+  { rewrite first_list_length, removelast_mid, ticks_of_app. cbn [ticks_of fold_right].
+    destruct (Nat.eqb_spec (ticks_of pre + (Z.to_nat (dsteps cur) + fold_right (fun e acc => (Z.to_nat (dsteps e) + acc)%nat) 0%nat (removelast (nxt :: post))))%nat 0%nat); [lia|reflexivity]. }
+  assert (HA : length (segs (pre ++ [cur])) = ticks_of pre).
+  { rewrite segs_length, removelast_last. reflexivity. }
+  replace (1 + ticks_of pre + j)%nat with (length (first_list (pre ++ cur :: nxt :: post)) + (length (segs (pre ++ [cur])) + j))%nat by lia.
+  rewrite app_nth2_plus, app_nth2_plus, app_nth1 by (rewrite seg_outs_length; exact Hj).
+  apply seg_outs_nth. exact Hj.
+Qed.
+
+(* the first message *)
+Lemma msg_first l pre cur nxt post :
+  l = pre ++ cur :: nxt :: post -> chain_ok_list l = true -> ticks_of pre = 0%nat -> 1 <= dsteps cur ->
+  nth 0 (spec l) ONone = emit raw_val cur nxt.
+Proof.
+  intros -> Hok Hz HD. rewrite (spec_ok _ Hok).
+  assert (E : first_list (pre ++ cur :: nxt :: post) = [emit raw_val cur nxt]).
+  { clear Hok. destruct pre as [|p pre].
+    - simpl. destruct (dsteps cur <=? 0) eqn:E; [lia|reflexivity].
+    - simpl. revert p Hz. induction pre as [|x pre IH]; intros p Hz.
+      + simpl in *. destruct (dsteps p <=? 0) eqn:E; [|lia]. destruct (dsteps cur <=? 0) eqn:E2; [lia|reflexivity].
+      + simpl in *. destruct (dsteps p <=? 0) eqn:E; [|lia]. apply IH. lia. }
+  rewrite E. reflexivity.
+Qed.
+
+(* all messages of a well-formed stream are control calls *)
+Definition has_keys (e : event) : bool :=
+  match lookup "control" (e_fields e), lookup "value" (e_fields e), lookup "channel" (e_fields e) with
+  | Some _, Some _, Some _ => true
+  | _, _, _ => false
+  end.
+Definition is_call (o : outcome) : Prop := exists c v h, o = OCall c v h.
+
+Lemma build_lookup_num k nxt : forall cur fs a, build_fields cur nxt = Some fs -> lookup k cur = Some (VNum a) ->
+  exists b, lookup k nxt = Some (VNum b).
+Proof.
+  induction cur as [|[k' [a'|t]] r IH]; simpl; intros fs a H Hl; [discriminate| |].
+  - destruct (lookup k' nxt) as [[b|]|] eqn:El; try discriminate.
+    destruct (build_fields r nxt) as [x|]; [|discriminate].
+    destruct (String.eqb_spec k k') as [->|Hne]; [eexists; exact El|]. eapply IH; eauto.
+  - destruct (build_fields r nxt) as [x|]; [|discriminate].
+    destruct (String.eqb k k'); [discriminate|]. eapply IH; eauto.
+Qed.
+
+Lemma field_val_some val cur nxt fs k x : build_fields cur nxt = Some fs -> lookup k cur = Some x ->
+  exists y, field_val val cur nxt k = Some y.
+Proof.
+  intros Hb Hl. unfold field_val. rewrite Hl. destruct x as [a|t]; [|eexists; reflexivity].
+  destruct (build_lookup_num k nxt cur fs a Hb Hl) as [b ->]. eexists; reflexivity.
+Qed.
+
+Lemma emit_is_call val cur nxt : pair_ok cur nxt = true -> has_keys cur = true -> is_call (emit val cur nxt).
+Proof.
+  unfold pair_ok, has_keys. intros Hp Hk. apply andb_true_iff in Hp as [_ Hb].
+  destruct (build_fields (e_fields cur) (e_fields nxt)) as [fs|] eqn:Eb; [|discriminate].
+  rewrite (emit_call val cur nxt fs Eb).
+  destruct (lookup "control" (e_fields cur)) as [c|] eqn:E1; [|discriminate].
+  destruct (lookup "value" (e_fields cur)) as [v|] eqn:E2; [|discriminate].
+  destruct (lookup "channel" (e_fields cur)) as [h|] eqn:E3; [|discriminate].
+  destruct (field_val_some val _ _ _ _ _ Eb E1) as [c' ->].
+  destruct (field_val_some val _ _ _ _ _ Eb E2) as [v' ->].
+  destruct (field_val_some val _ _ _ _ _ Eb E3) as [h' ->].
+  do 3 eexists; reflexivity.
+Qed.
+
+Lemma all_segs_calls : forall rest cur, chain_ok cur rest = true -> Forall (fun e => has_keys e = true) (cur :: rest) ->
+  Forall is_call (all_segs cur rest).
+Proof.
+  induction rest as [|nxt r IH]; intros cur Hc Hk; [constructor|].
+  simpl in Hc. apply andb_true_iff in Hc as [Hp Hc]. inversion Hk; subst.
+  cbn [all_segs]. apply Forall_app. split; [|apply IH; assumption].
+  unfold seg_outs. apply Forall_forall. intros o Ho. apply in_map_iff in Ho as [j [<- _]].
+  apply emit_is_call; assumption.
+Qed.
+
+Lemma first_part_calls : forall rest cur, chain_ok cur rest = true -> Forall (fun e => has_keys e = true) (cur :: rest) ->
+  Forall is_call (first_part true cur rest).
+Proof.
+  induction rest as [|nxt r IH]; intros cur Hc Hk; [constructor|].
+  simpl in Hc. apply andb_true_iff in Hc as [Hp Hc]. inversion Hk; subst.
+  cbn [first_part]. destruct (dsteps cur <=? 0); [apply IH; assumption|].
+  constructor; [|constructor]. apply emit_is_call; assumption.
+Qed.
+
+(* a segment with a non-control end: everything before it, then InvalidEventException, then nothing *)
+Lemma spec_open_invalid cur nxt post : 1 <= dsteps cur -> e_ctl cur && e_ctl nxt = false ->
+  forall pre p first, chain_ok p (pre ++ [cur]) = true ->
+  spec_open first p (pre ++ cur :: nxt :: post) =
+  first_part first p (pre ++ [cur]) ++ all_segs p (pre ++ [cur]) ++ [OInvalid].
+Proof.
+  intros HD Hctl.
+  assert (Hcur : forall first, spec_open first cur (nxt :: post) = [OInvalid]).
+  { intros first. cbn [spec_open]. destruct (dsteps cur <=? 0) eqn:E; [lia|]. rewrite Hctl. reflexivity. }
+  remember (nxt :: post) as tl eqn:Etl. clear Etl.
+  induction pre as [|x pre IH]; intros p first Hc.
+  - simpl in Hc. rewrite andb_true_r in Hc. unfold pair_ok in Hc.
+    apply andb_true_iff in Hc as [Hc Hb].
+    simpl app. cbn [spec_open first_part all_segs]. destruct (dsteps p <=? 0) eqn:Ez.
+    + rewrite Hcur, seg_outs_zero by lia. reflexivity.
+    + rewrite Hc. simpl negb. cbv iota.
+      destruct (build_fields (e_fields p) (e_fields cur)); [|discriminate].
+      rewrite Hcur. destruct first; simpl; rewrite ?app_nil_r; reflexivity.
+  - simpl in Hc. apply andb_true_iff in Hc as [Hp Hc]. unfold pair_ok in Hp.
+    apply andb_true_iff in Hp as [Hp Hb].
+    simpl app. cbn [spec_open first_part all_segs]. destruct (dsteps p <=? 0) eqn:Ez.
+    + rewrite (IH x first Hc), seg_outs_zero by lia. reflexivity.
+    + rewrite Hp. simpl negb. cbv iota.
+      destruct (build_fields (e_fields p) (e_fields x)); [|discriminate].
+      rewrite (IH x false Hc), first_part_false. destruct first; simpl; rewrite <- ?app_assoc; reflexivity.
+Qed.
+
+(* the event-count limit is a prefix of the stream *)
+Lemma eff_unlimited : (maxc = None \/ maxc = Some 0) -> forall stream count, eff count stream = stream.
+Proof.
+  intros H. induction stream as [|e r IH]; intros count; simpl; [reflexivity|].
+  replace (limit_reached maxc count) with false by (destruct H as [-> | ->]; reflexivity).
+  rewrite IH. reflexivity.
+Qed.
+
+Lemma eff_firstn m : maxc = Some m -> 0 < m -> forall stream count,
+  eff count stream = firstn (Z.to_nat (m - count)) stream.
+Proof.
+  intros H Hm. induction stream as [|e r IH]; intros count; simpl; [rewrite firstn_nil; reflexivity|].
+  unfold limit_reached. rewrite H.
+  destruct (m =? 0) eqn:E0; [lia|]. simpl. destruct (m <=? count) eqn:E.
+  - replace (Z.to_nat (m - count)) with 0%nat by lia. reflexivity.
+  - replace (Z.to_nat (m - count)) with (S (Z.to_nat (m - (count + 1)))) by lia. simpl. rewrite IH. reflexivity.
+Qed.
+
 End Traces.
 
 (** * Arithmetic of the step values *)
@@ -470,7 +650,76 @@ Proof.
   intros HD. unfold Qeq. simpl. rewrite Z2Pos.id by lia. lia.
 Qed.
 
-Lemma between (a b t : Q) : (0 <= t)%Q -> (t <= 1)%Q ->
+Lemma lerp_between (a b t : Q) : (0 <= t)%Q -> (t <= 1)%Q ->
   ((a <= b -> a <= a + (b - a) * t /\ a + (b - a) * t <= b) /\
    (b <= a -> b <= a + (b - a) * t /\ a + (b - a) * t <= a))%Q.
 Proof. intros H0 H1. split; intros Hab; split; nra. Qed.
+
+(** * Durations in ticks *)
+
+Lemma Qfloor_unique z y : (inject_Z z <= y)%Q -> (y < inject_Z (z + 1))%Q -> Qfloor y = z.
+Proof.
+  intros H1 H2. pose proof (Qfloor_le y) as A. pose proof (Qlt_floor y) as B.
+  assert (Qfloor y < z + 1) by (rewrite Zlt_Qlt; eapply Qle_lt_trans; eauto).
+  assert (z < Qfloor y + 1) by (rewrite Zlt_Qlt; eapply Qle_lt_trans; eauto).
+  lia.
+Qed.
+
+(* a product duration * ticks_per_beat within 5e-9 of the whole number D counts as D ticks *)
+Lemma dur_steps_whole tpb d D :
+  (inject_Z D - (1 # 200000000) < d * inject_Z tpb)%Q -> (d * inject_Z tpb < inject_Z D + (1 # 200000000))%Q ->
+  dur_steps tpb d = D.
+Proof.
+  intros H1 H2. unfold dur_steps, round8. set (x := (d * inject_Z tpb)%Q) in *.
+  assert (E : Qfloor (x * (100000000 # 1) + (1 # 2)) = D * 100000000).
+  { apply Qfloor_unique.
+    - rewrite inject_Z_mult. change (inject_Z 100000000) with (100000000 # 1)%Q. lra.
+    - rewrite inject_Z_plus, inject_Z_mult. change (inject_Z 100000000) with (100000000 # 1)%Q.
+      change (inject_Z 1) with 1%Q. lra. }
+  rewrite E. unfold Qfloor. simpl. apply Z.div_mul. lia.
+Qed.
+
+(** * The timeline around the track *)
+
+Lemma timeline_run_started cospi n tpb mode maxc s q d events t0 :
+  start_tick (S n) tpb s q d = Some t0 ->
+  timeline_run cospi n tpb mode maxc s q d events =
+  repeat ONone (Nat.min n (Z.to_nat t0)) ++ run cospi tpb mode maxc (n - Nat.min n (Z.to_nat t0)) (init events).
+Proof. intros H. unfold timeline_run. rewrite H. reflexivity. Qed.
+
+(** * Values and pass-through of one message *)
+
+Lemma emit_value val cur nxt a b : pair_ok cur nxt = true -> has_keys cur = true ->
+  lookup "value" (e_fields cur) = Some (VNum a) -> lookup "value" (e_fields nxt) = Some (VNum b) ->
+  exists c h, emit val cur nxt = OCall c (VNum (val a b)) h
+    /\ field_val val (e_fields cur) (e_fields nxt) "control" = Some c
+    /\ field_val val (e_fields cur) (e_fields nxt) "channel" = Some h.
+Proof.
+  unfold pair_ok, has_keys. intros Hp Hk Ha Hb. apply andb_true_iff in Hp as [_ Hbf].
+  destruct (build_fields (e_fields cur) (e_fields nxt)) as [fs|] eqn:Eb; [|discriminate].
+  rewrite (emit_call val cur nxt fs Eb).
+  destruct (lookup "control" (e_fields cur)) as [c|] eqn:E1; [|discriminate].
+  destruct (lookup "channel" (e_fields cur)) as [h|] eqn:E3; [|rewrite Ha in Hk; discriminate].
+  destruct (field_val_some val _ _ _ _ _ Eb E1) as [c' Ec].
+  destruct (field_val_some val _ _ _ _ _ Eb E3) as [h' Eh].
+  rewrite Ec, Eh. unfold field_val at 1. rewrite Ha, Hb. exists c', h'. repeat split.
+Qed.
+
+Lemma chain_ok_app : forall l1 p x y l2, chain_ok p (l1 ++ x :: y :: l2) = true -> pair_ok x y = true.
+Proof.
+  induction l1 as [|z l1 IH]; intros p x y l2 H; simpl in H.
+  - apply andb_true_iff in H as [_ H]. apply andb_true_iff in H as [H _]. exact H.
+  - apply andb_true_iff in H as [_ H]. eapply IH; eauto.
+Qed.
+
+Lemma chain_ok_mid pre x y post : chain_ok_list (pre ++ x :: y :: post) = true -> pair_ok x y = true.
+Proof.
+  destruct pre as [|p pre]; simpl; intros H.
+  - apply andb_true_iff in H as [H _]. exact H.
+  - eapply chain_ok_app; eauto.
+Qed.
+
+Lemma step_value_flat cospi mode a b D j : (a == b)%Q -> (step_value cospi mode a b D j == a)%Q.
+Proof.
+  intros H. unfold step_value. destruct mode; rewrite <- H; unfold Qdiv; ring.
+Qed.
